@@ -7,7 +7,7 @@
     [C19_pseudo_unique_refuted] / [C19_content_length_numeric_refuted] were provable. *)
 From Coq Require Import List ZArith Bool String.
 From V Require Import Gen.Params Lib.Hex H3Headers.Model H3Headers.Spec H3Headers.Proofs H3Headers.ProofsParse H3Headers.ProofsMain H3Headers.ProofsComplete.
-From V Require Import H3Writers.Model H3Writers.Proofs H3Writers.ProofsAgree.
+From V Require Import H3Writers.Model H3Writers.Proofs H3Writers.ProofsAgree H3Writers.ProofsE2E.
 Import ListNotations.
 Open Scope Z_scope.
 
@@ -279,3 +279,65 @@ Example C19_nonvacuous_writer_trailers :
   write_trailers [(bs "X-Checksum", []); (bs "Upgrade", [bs "x"]); (bs "Content-Length", [bs "5"])] = None.
 Proof. exact ex_trailers. Qed.
 Print Assumptions C19_nonvacuous_writer_trailers.
+
+(** ** End-to-end composition on the header map (round 4): parser model applied to writer model
+    output, for ALL header maps — keys in any spelling (cf. seeded change C19-e), any iteration
+    order.  [expected_values q n] is what the abstract request carries under the lower-case name
+    [n]: the values of every req.Header entry whose key equals [n] ASCII-case-insensitively, minus
+    the documented drops (host, content-length, connection-specific names, all but the first
+    non-empty User-Agent), plus what the writer adds (accept-encoding: gzip, default User-Agent). *)
+Theorem C19_writer_parser_agree_headers : forall q uri lim pre mid post r,
+  emit_request3 q = Some (pre, mid, post) -> wreq_pre q uri ->
+  section_size (pre ++ mid ++ post) <= lim ->
+  requestFromHeaders lim (pre ++ mid ++ post) false uri = inr r ->
+  (forall n, token_ok n = true -> lower_ok n = true ->
+             n <> bs "content-length" -> n <> bs "cookie" -> n <> bs "trailer" ->
+             hget (canon n) (rqHeader r) = opt_values (expected_values q n)) /\
+  hget (bs "Cookie") (rqHeader r) =
+    match expected_values q (bs "cookie") with [] => None | c :: cs => Some [join (bs "; ") (c :: cs)] end /\
+  hget (bs "Content-Length") (rqHeader r) =
+    (if send_cl (wMethod q) (wCL q) then Some [itoa (wCL q)] else None) /\
+  hget (bs "Trailer") (rqHeader r) = None.
+Proof. exact request_agree_headers. Qed.
+Print Assumptions C19_writer_parser_agree_headers.
+
+Theorem C19_writer_parser_agree_response_headers : forall status h lim r n,
+  0 <= lim -> updateResponseFromHeaders lim (rsp_fields status h) false = inr r ->
+  token_ok n = true -> lower_ok n = true -> n <> bs "content-length" -> n <> bs "trailer" ->
+  hget (canon n) (rsHeader r) = opt_values (rsp_expected h n).
+Proof. exact response_agree_headers. Qed.
+Print Assumptions C19_writer_parser_agree_response_headers.
+
+Theorem C19_writer_parser_agree_trailer_values : forall t fs lim n,
+  write_trailers t = Some fs -> tmap_ok t -> section_size fs <= lim ->
+  token_ok n = true -> lower_ok n = true ->
+  exists m, parseTrailers lim fs false = inr m /\ hget (canon n) m = opt_values (trailers_expected t n).
+Proof. exact trailers_agree_values. Qed.
+Print Assumptions C19_writer_parser_agree_trailer_values.
+
+Example C19_nonvacuous_noncanonical_keys :
+  wreq_pre ex_req_e any_uri /\
+  emit_request ex_req_e = Some
+    [mk ":authority" "example.com"; mk ":method" "GET"; mk ":path" "/a"; mk ":scheme" "https";
+     mk "x-a" "1"; mk "x-a" "2"; mk "cookie" "a=1"; mk "cookie" "b=2"; mk "user-agent" "ua1"] /\
+  expected_values ex_req_e (bs "x-a") = [bs "1"; bs "2"] /\
+  expected_values ex_req_e (bs "connection") = [] /\ expected_values ex_req_e (bs "host") = [] /\
+  expected_values ex_req_e (bs "user-agent") = [bs "ua1"].
+Proof. exact ex_req_e_facts. Qed.
+Print Assumptions C19_nonvacuous_noncanonical_keys.
+
+(** Receive-side glue (decodeTrailers: frame-length gate, payload read, QPACK, parseTrailers):
+    accepted only if the frame fits maxHeaderBytes, nothing was cut, the payload is not empty and the
+    section is a well-formed trailer section within the same limit; and every trailer section a
+    writer emits passes it. *)
+Theorem C19_decode_trailers_sound : forall maxb enclen tr fs m,
+  0 <= maxb -> decode_trailers maxb enclen tr fs = inr m ->
+  enclen <= maxb /\ tr = false /\ fs <> [] /\ WFtrailer maxb fs /\ m = trailers_of fs.
+Proof. exact decode_trailers_sound. Qed.
+Print Assumptions C19_decode_trailers_sound.
+
+Theorem C19_writer_decode_agree : forall t fs maxb enclen,
+  write_trailers t = Some fs -> tmap_ok t -> enclen <= maxb -> section_size fs <= maxb ->
+  decode_trailers maxb enclen false fs = inr (trailers_of fs).
+Proof. exact writer_decode_agree. Qed.
+Print Assumptions C19_writer_decode_agree.
